@@ -37,9 +37,38 @@ def _run_cli(cmd, text, timeout):
         os.unlink(path)
 
 
-def ematch_check(pc, neg, timeout_ms=8000):
+_QCACHE: dict = {}
+
+
+def _has_quantifier(fs):
+    """Only selects the solver strategy (never a verdict); top-level formulas are cached by AST id."""
+    for top in fs:
+        key = top.get_id()
+        hit = _QCACHE.get(key)
+        if hit is None:
+            hit = False
+            seen = set()
+            todo = [top]
+            while todo:
+                f = todo.pop()
+                if f.get_id() in seen:
+                    continue
+                seen.add(f.get_id())
+                if z3.is_quantifier(f):
+                    hit = True
+                    break
+                todo.extend(f.children())
+            _QCACHE[key] = hit
+        if hit:
+            return True
+    return False
+
+
+def ematch_check(pc, neg, timeout_ms=8000, auto_config=True):
     s = z3.Solver()
     s.set('smt.mbqi', False)
+    if not auto_config:
+        s.set('smt.auto_config', False)
     s.set('timeout', timeout_ms)
     s.add(*pc)
     s.add(neg)
@@ -59,6 +88,13 @@ def check_valid(pc, goal, want_model=True, all_backends=False, z3_timeout_ms=Non
     """-> dict(verdict=proved|refuted|unknown, backend, ms, model (z3 ModelRef|None), detail)."""
     t0 = time.time()
     neg = z3.Not(goal)
+    quantified = _has_quantifier(list(pc) + [neg])
+    if quantified and not all_backends:
+        # quantified VCs: plain e-matching without the automatic strategy selection is the most stable configuration
+        # (seconds instead of timeouts); only 'unsat' is used from this run
+        if ematch_check(pc, neg, timeout_ms=4000, auto_config=False) == 'unsat':
+            return {'backend': 'z3-%s (e-matching, no auto-config)' % z3.get_version_string(), 'model': None, 'detail': '',
+                    'verdict': 'proved', 'all': {'z3-ematch': 'proved'}, 'ms': int((time.time() - t0) * 1000)}
     s = z3.Solver()
     s.set('timeout', z3_timeout_ms or Z3_TIMEOUT_MS)
     s.add(*pc)
